@@ -31,12 +31,12 @@ import (
 
 // TLItem is one arrival on one of the two streams.
 type TLItem struct {
-	AtMs  int
-	Kind  string // event | part | noise | login | raw
-	S, E  int
+	AtMs   int
+	Kind   string // event | part | noise | login | raw
+	S, E   int
 	Lo, Hi int // part: records [Lo,Hi) of the event
-	Noise *KEvent
-	Raw   string
+	Noise  *KEvent
+	Raw    string
 }
 
 // fifoDir holds two real FIFOs (only so that the daemon's IsNamedPipe check sees what it
@@ -72,11 +72,11 @@ func quietZap() *zap.Config {
 // Pipeline is a running L2 or L3 system under simulation.
 type Pipeline struct {
 	DebugLog bool // L3: run the daemon with -log-level debug
-	rc    *RunCtx
-	Level int
-	H     *History
-	Sshd  []TLItem
-	Audit []TLItem
+	rc       *RunCtx
+	Level    int
+	H        *History
+	Sshd     []TLItem
+	Audit    []TLItem
 
 	ctx    context.Context
 	cancel context.CancelFunc
@@ -495,6 +495,27 @@ func scnPipelineWorld(prop string, level int) scenarioFn {
 		// with the daemon already up for one, two or three minutes)
 		offset := []int{0, 0, 20000, 55000, 100000, 59000, 118500, 178000}[rc.Spec.Choose(8, "offset")]
 		sshdTL, auditTL := buildTimelines(h, offset)
+		if prop != "C09" {
+			// records on the sshd stream that look like logins but are none: an accepted line whose
+			// PID field is not a number (right after a real login), and a failure line whose
+			// client-chosen text carries an escaped line feed followed by "<pid> Accepted ..." for the
+			// PID of one of the sessions; neither may change anything
+			var withJunk []TLItem
+			for _, it := range sshdTL {
+				withJunk = append(withJunk, it)
+				if it.Kind != "login" || rc.Spec.Choose(4, "sshd.junk") != 3 {
+					continue
+				}
+				victim := h.W.Sessions[rc.Spec.Choose(len(h.W.Sessions), "sshd.junk.victim")].PID
+				raw := "- Accepted password for mallory from 203.0.113.66 port 6666 ssh2"
+				if rc.Spec.Choose(2, "sshd.junk.kind") == 1 {
+					raw = fmt.Sprintf("9999 Invalid user x#012%d Accepted password for mallory from 203.0.113.66 port 6666 ssh2 from 203.0.113.66 port 6667", victim)
+				}
+				withJunk = append(withJunk, TLItem{AtMs: it.AtMs, Kind: "raw", Raw: raw + "\n"})
+				rc.Sim.Count("sshd.junk_line")
+			}
+			sshdTL = withJunk
+		}
 		p := newPipeline(rc, level, h, sshdTL, auditTL)
 		if level == 3 {
 			p.Knobs["auditLogChanBufSize"] = []int{10000, 1, 2, 8, 64}[rc.Spec.Choose(5, "knob.chan")]
@@ -520,11 +541,17 @@ func scnPipelineWorld(prop string, level int) scenarioFn {
 			rc.Abort("start: %v", err)
 			return
 		}
+		// one output write of the daemon may take seconds (a slow disk): everything behind it waits
+		var stallFor time.Duration
+		if level == 3 && p.disk != nil && rc.Spec.Choose(6, "disk.stall") == 5 {
+			stallFor = time.Duration(1000+rc.Spec.Choose(5000, "disk.stall.ms")) * time.Millisecond
+			p.disk.StallAt, p.disk.StallFor = 1+rc.Spec.Choose(10, "disk.stall.at"), stallFor
+		}
 		end := time.Duration(offset+45000) * time.Millisecond
-		ok := p.Run(p.worldDone, end+5*time.Second, 100*time.Millisecond, 150000)
+		ok := p.Run(p.worldDone, end+5*time.Second+stallFor, 100*time.Millisecond, 150000)
 		if ok && !rc.Failed() {
 			// settle: let the reassembler and tickers run for 3 more simulated seconds
-			ok = p.Run(nil, rc.SimNow()+3*time.Second, 100*time.Millisecond, 150000)
+			ok = p.Run(nil, rc.SimNow()+3*time.Second+stallFor, 100*time.Millisecond, 150000)
 		}
 		rc.CaseKey(h.caseKey(), offset, level)
 		rc.State(h.stateKey(p.Out))
